@@ -46,7 +46,7 @@ EVENTS = [['call', 0], ['call', 1], ['call', 2], ['call', 'ref'], ['call_wrong_s
           ['respecies_arg', 1], ['call_list', 'empty'], ['call_list', 'two'], ['mut_tgt_resids'],
           ['renumber_arg_big', 1]]
 # events explored on the plain chain pair only (keeps the other pairs' history spaces as they were)
-EXTRA = [['degen_arg', 1, 'near'], ['degen_arg', 1, 'exact'], ['call_case_name']]
+EXTRA = [['degen_arg', 1, 'near'], ['degen_arg', 1, 'exact'], ['call_case_name'], ['call_same_name_other_atoms']]
 SCALE = 0.5
 
 
@@ -166,6 +166,16 @@ class World:
             self.snapshot['cased'] = self._lazy['cased'].atoms_positions.copy()
         return self._lazy['cased']
 
+    @property
+    def renamed_atoms(self):
+        """Another species carrying the SAME molecule name and atom count (residues and bonds too) whose atoms are
+        named differently."""
+        if 'renamed_atoms' not in self._lazy:
+            atoms = [('X' + an[1:], rn, ri) for an, rn, ri in self._ratoms]
+            self._lazy['renamed_atoms'] = self._same_name(atoms, self._redges, self._base)
+            self.snapshot['renamed_atoms'] = self._lazy['renamed_atoms'].atoms_positions.copy()
+        return self._lazy['renamed_atoms']
+
     def _same_name(self, atoms, edges, base):
         from gaddlemaps.components import System
         pts = np.vstack([base, base[-1:] + 0.2])[:len(atoms)]
@@ -198,7 +208,7 @@ class C04(Check):
             'non-trivial = a call event whose result was compared with a freshly built map')
     technique = ('explicit-state breadth-first search over call/mutation histories on the real ExchangeMap with a '
                  'differential oracle (fresh map built from fresh files) after every transition; de Bruijn histories')
-    level_text = ('every history up to depth 3 (quick; 2 on the three special-purpose pairs) / 4-5 (thorough; 3 on those) over an 18-event alphabet (21 on the plain chain pair: plus an argument deformed to a near-degenerate / exactly degenerate anchor frame and a call with a species whose name differs only in letter case), on 5 reference/target '
+    level_text = ('every history up to depth 3 (quick; 2 on the three special-purpose pairs) / 4-5 (thorough; 3 on those) over an 18-event alphabet (22 on the plain chain pair: plus an argument deformed to a near-degenerate / exactly degenerate anchor frame, a call with a species whose name differs only in letter case and one with the same name and size but other atom names), on 5 reference/target '
                   'pairs x 2 ways of producing arguments (sharing the species topology as System does / independently '
                   'loaded), is executed on the real map and checked after every event; histories of length 101 and 1002 '
                   'containing every ordered pair / triple of events cover the long-history clause')
@@ -341,9 +351,9 @@ class C04(Check):
                     a.atoms_positions = pos
                     mutated = f'arg{ev[1]}'
             elif name in ('call_wrong_species', 'call_target_itself', 'call_ndarray', 'call_same_name_longer',
-                          'call_same_name_shorter', 'call_case_name'):
+                          'call_same_name_shorter', 'call_case_name', 'call_same_name_other_atoms'):
                 bad = {'call_wrong_species': lambda: w.other, 'call_target_itself': lambda: w.tgt,
-                       'call_case_name': lambda: w.cased,
+                       'call_case_name': lambda: w.cased, 'call_same_name_other_atoms': lambda: w.renamed_atoms,
                        'call_ndarray': lambda: w.args[0].atoms_positions, 'call_same_name_longer': lambda: w.longer,
                        'call_same_name_shorter': lambda: w.shorter}[name]()
                 try:
